@@ -49,8 +49,10 @@ traces are compared as before).  var = rv + 8 * cv:
                                   1 MappedSignal::from(ArcMappedSignal); flavour 7 MaybeProp::from (1: straight from ReadSignal / RwSignal /
                                   Memo, Some(z)), 8 Signal<Option<T>>::from(Signal<T> / T), 9 Signal::from(MaybeSignal)
   effect (3 kind body handler par var)   var: 1 the Send + Sync sibling (Effect::new_sync, watch_sync, RenderEffect::new_isomorphic,
-                                  ImmediateEffect::new_isomorphic), 2 RenderEffect::new_with_value / ImmediateEffect::new_scoped,
-                                  3 ImmediateEffect::new_mut
+                                  ImmediateEffect::new_isomorphic; kind 4: a closure without the previous-value argument),
+                                  2 RenderEffect::new_with_value / ImmediateEffect::new_scoped / Effect::new(|| ..) without the argument /
+                                  the deprecated free function watch(..) (its stop closure is what (7 e how) calls),
+                                  3 ImmediateEffect::new_mut / the deprecated create_effect
   op (7 e how)                    how 1 Dispose::dispose on the effect's handle (RenderEffect: the handle is dropped), 2 Effect::stop;
                                   the owner is left alone (only for effects without owners below them)
   op (9 s how)                    NOT a write (oracle only): 0 maybe_update(|_| false), 1 write() + untrack(), 2 try_maybe_update -> (false, _),
@@ -328,6 +330,8 @@ def valid_prog(prog):
             return False
         if nd[0] == DER and nd[1] >= 3 and not valid_wrapper(prog, i):
             return False
+        if nd[0] == EFF and has_create(nd[2]) and ((nd[1] in (0, 2, 3) and var_of(nd) == 2) or (nd[1] == 4 and var_of(nd) == 1)):
+            return False      # these constructors do not keep the value (the RenderEffect handles) of a run
         if nd[0] == EFF and nd[1] == 5 and var_of(nd) == 3 and any(prog[j][0] in (MEMO, SEL) for j in cone(prog, i)):
             return False      # ImmediateEffect::new_mut panics when it recurses (documented); through memos it does
     return True
@@ -347,7 +351,7 @@ def valid_var(nd):
     if not isinstance(v, int) or v < 0:
         return False
     if nd[0] == EFF:
-        return v in {0: (0, 1), 1: (0, 1, 2), 2: (0, 1), 3: (0, 1), 4: (0,), 5: (0, 1, 2, 3)}.get(nd[1], (0,))
+        return v in {0: (0, 1, 2, 3), 1: (0, 1, 2), 2: (0, 1, 2), 3: (0, 1, 2), 4: (0, 1), 5: (0, 1, 2, 3)}.get(nd[1], (0,))
     rv, cv = v % 8, v // 8
     if rv > 4:
         return False
@@ -926,8 +930,10 @@ def add_variants(rng, prog, p=0.5):
         elif nd[0] == DER and len(nd) == 3:
             wrapped = any(o[0] == DER and o[1] >= 3 and o[2][0] == 1 and prog[o[2][1]] is nd for o in prog)
             nd.append(rng.randint(0, 4) + 8 * (0 if wrapped else rng.randint(0, 2)))
-        elif nd[0] == EFF and nd[1] != 4:
-            choices = {0: (1,), 1: (1, 2), 2: (1,), 3: (1,), 5: (1, 2)}[nd[1]]
+        elif nd[0] == EFF and nd[1] != 6:
+            choices = {0: (1, 1, 2, 3), 1: (1, 2), 2: (1, 1, 2), 3: (1, 1, 2), 4: (1,), 5: (1, 2)}[nd[1]]
+            if has_create(nd[2]):
+                choices = tuple(c for c in choices if not ((nd[1] in (0, 2, 3) and c == 2) or nd[1] == 4)) or (0,)
             if nd[1] == 5 and not any(prog[j][0] in (MEMO, SEL) for j in cone(prog, prog.index(nd))):
                 choices = (1, 2, 3, 3)      # new_mut: only where it cannot recurse
             par = nd[4] if len(nd) > 4 else -1
